@@ -1,8 +1,8 @@
 (* C11 -- Binary-to-text and wire codecs are exact inverses on their whole domain.
    Statements only; every proof is [exact <lemma>] with Print Assumptions beneath. *)
 From Coq Require Import NArith ZArith Arith List.
-From BU Require Import Base.Exn Base.Bytes Gen.Consts Gen.CodecConsts Model.Base58 Model.Base58Xmr Model.Codecs Model.IntBytes.
-From BU Require Lemmas.Base58 Lemmas.ConstsOk Lemmas.XmrConstsOk Lemmas.IntBytes Lemmas.ConvertBitsOk Lemmas.Base32 Lemmas.Base32Ok Lemmas.SS58Ok.
+From BU Require Import Base.Exn Base.Bytes Gen.Consts Gen.CodecConsts Model.Base58 Model.Base58Xmr Model.Codecs Model.IntBytes Model.Scale.
+From BU Require Lemmas.Base58 Lemmas.ConstsOk Lemmas.XmrConstsOk Lemmas.IntBytes Lemmas.ConvertBitsOk Lemmas.Base32 Lemmas.Base32Ok Lemmas.SS58Ok Lemmas.ScaleOk.
 Import ListNotations.
 Open Scope N_scope.
 
@@ -326,3 +326,58 @@ Theorem ss58_f3_rejected :
   Codecs.ss58_parse_header [128; 0] = Err ValueError /\ Codecs.ss58_parse_header [65; 64] = Err ValueError.
 Proof. exact SS58Ok.ss58_f3_rejected. Qed.
 Print Assumptions ss58_f3_rejected.
+
+(* ------------------------------------------------------------------ SCALE encoders *)
+(* The library has encoders only.  [Scale.compact_decode], [Scale.bytes_decode], [Scale.uint_decode] are model
+   decoders written from the SCALE specification; decode (encode v ++ rest) = (v, rest) says that the encoding
+   is injective and self-delimiting (what every concatenated SCALE structure relies on). *)
+
+Theorem scale_thresholds : scale_single_max = 2 ^ 6 - 1 /\ scale_two_max = 2 ^ 14 - 1 /\
+  scale_four_max = 2 ^ 30 - 1 /\ scale_big_max = 2 ^ 536 - 1 /\ scale_uint_byte_lens = [1; 2; 4; 8; 16; 32].
+Proof.
+  exact (conj ScaleOk.scale_single_def (conj ScaleOk.scale_two_def (conj ScaleOk.scale_four_def
+         (conj ScaleOk.scale_big_def ScaleOk.scale_uint_lens)))).
+Qed.
+Print Assumptions scale_thresholds.
+
+(* compact integers across the 2^6 / 2^14 / 2^30 / 2^536 thresholds *)
+Theorem scale_compact_dec_enc : forall v rest, v <= scale_big_max ->
+  exists b, Codecs.scale_compact_encode (Z.of_N v) = Ok b /\
+            Scale.compact_decode (b ++ rest) = Ok (v, rest) /\ bytes_ok b.
+Proof. exact ScaleOk.scale_compact_dec_enc. Qed.
+Print Assumptions scale_compact_dec_enc.
+
+Theorem scale_compact_inj : forall v1 v2 b1 b2 r1 r2, v1 <= scale_big_max -> v2 <= scale_big_max ->
+  Codecs.scale_compact_encode (Z.of_N v1) = Ok b1 -> Codecs.scale_compact_encode (Z.of_N v2) = Ok b2 ->
+  b1 ++ r1 = b2 ++ r2 -> v1 = v2 /\ r1 = r2.
+Proof. exact ScaleOk.scale_compact_inj. Qed.
+Print Assumptions scale_compact_inj.
+
+Theorem scale_compact_range : forall v,
+  ((Z.of_N scale_big_max < v)%Z -> Codecs.scale_compact_encode v = Err ValueError) /\
+  ((v < 0)%Z -> Codecs.scale_compact_encode v = Err OverflowError).
+Proof. exact ScaleOk.scale_compact_range. Qed.
+Print Assumptions scale_compact_range.
+
+Theorem scale_bytes_dec_enc : forall b rest, bytes_ok b -> N.of_nat (length b) <= scale_big_max ->
+  exists s, Codecs.scale_bytes_encode b = Ok s /\ Scale.bytes_decode (s ++ rest) = Ok (b, rest).
+Proof. exact ScaleOk.scale_bytes_dec_enc. Qed.
+Print Assumptions scale_bytes_dec_enc.
+
+(* u8 .. u256: little-endian on exactly w bytes, injective; everything else is a ValueError *)
+Theorem scale_uint_dec_enc : forall kind w v rest, nth_error scale_uint_byte_lens kind = Some w -> v < 256 ^ w ->
+  exists b, Codecs.scale_uint_encode kind (Z.of_N v) = Ok b /\
+            Scale.uint_decode (N.to_nat w) (b ++ rest) = Ok (v, rest) /\ length b = N.to_nat w.
+Proof. exact ScaleOk.scale_uint_dec_enc. Qed.
+Print Assumptions scale_uint_dec_enc.
+
+Theorem scale_uint_inj : forall kind w v1 v2 b, nth_error scale_uint_byte_lens kind = Some w ->
+  v1 < 256 ^ w -> v2 < 256 ^ w ->
+  Codecs.scale_uint_encode kind (Z.of_N v1) = Ok b -> Codecs.scale_uint_encode kind (Z.of_N v2) = Ok b -> v1 = v2.
+Proof. exact ScaleOk.scale_uint_inj. Qed.
+Print Assumptions scale_uint_inj.
+
+Theorem scale_uint_range : forall kind w v, nth_error scale_uint_byte_lens kind = Some w ->
+  (v < 0 \/ Z.of_N (256 ^ w) <= v)%Z -> Codecs.scale_uint_encode kind v = Err ValueError.
+Proof. exact ScaleOk.scale_uint_range. Qed.
+Print Assumptions scale_uint_range.
